@@ -170,7 +170,7 @@ Definition set_fires v s := {| now := now s; tc := tc s; success := success s; i
 
 Inductive ev :=
   | Resolve (name : list Z) | ConnectCb | DisconnectCb | ReconnectCb (err : Z)
-  | Recv (b : list Z) | SentRes (r : Z) | ConnRes (r : Z) | Adv (dt : Z) | Dump.
+  | Recv (b : list Z) | SentRes (r : Z) | ConnRes (r : Z) | DiscRes (r : Z) | Adv (dt : Z) | Dump.
 Inductive out :=
   | CB (a : option (list Z)) | Connect (port t r : Z) (addr : list Z) | Disconnect (t : Z)
   | Sent (r t : Z) (b : list Z) | SentNull (r l t : Z)
@@ -271,6 +271,7 @@ Definition step (fx : bool) (s : st) (e : ev) : st * list out :=
   | Recv b => if reg s then recv s b else (s, [])
   | SentRes r => (set_sres r s, [])
   | ConnRes r => (set_cres r s, [])                (* the value the next espconn_connect calls return *)
+  | DiscRes _ => (s, [])                           (* the value espconn_disconnect returns: never looked at by the code *)
   | Adv dt => adv_loop ADV_FUEL (now s + Z.max 0 dt) s
   | Dump => (s, [dump s])
   end.
@@ -363,7 +364,7 @@ Definition ev_of_wire (w : wire) : ev :=
     let a0 := hd 0 a in
     if k =? 0 then Resolve b else if k =? 1 then ConnectCb else if k =? 2 then DisconnectCb
     else if k =? 3 then ReconnectCb a0 else if k =? 4 then Recv b else if k =? 5 then SentRes a0
-    else if k =? 6 then Adv a0 else if k =? 7 then Dump else ConnRes a0
+    else if k =? 6 then Adv a0 else if k =? 7 then Dump else if k =? 8 then ConnRes a0 else DiscRes a0
   end.
 Definition wire_of_out (o : out) : wire :=
   match o with
